@@ -898,7 +898,9 @@ def get_padded_choices(
             raise ValueError(f"Can't tell if {s} is increasing or decreasing")
         else:
             new_s = 1
-        formula = formula.xreplace({s: new_s})
+        # sympify: if the formula is the bare symbol, xreplace returns the replacement
+        # itself, which would otherwise be a plain int without free_symbols
+        formula = formula.xreplace({s: sympy.sympify(new_s)})
         substitutions[s] = new_s
         for k, v in substitutions.items():
             if v == s:
